@@ -360,6 +360,11 @@ func (i *PostingsIterator) loadChunk(chunk int) error {
 	if i.includeLocs {
 		err := i.locReader.loadChunk(chunk)
 		if err != nil {
+			// do not keep a half loaded chunk: a new iterator has currChunk 0, so
+			// with the freq/norm part in place chunk 0 would pass for loaded
+			if i.includeFreqNorm {
+				i.freqNormReader.curChunkBytes = nil
+			}
 			return err
 		}
 	}
